@@ -4673,6 +4673,12 @@ struct Builder<'a, 'graph> {
   fill_pass_mode: FillPassMode,
   executor: &'a dyn Executor,
   resolved_roots: BTreeSet<ModuleSpecifier>,
+  /// What `fill_from_lockfile` put in the graph before the first build, so
+  /// a restart can start over from it instead of from nothing.
+  lockfile_state: Option<(
+    BTreeMap<ModuleSpecifier, ModuleSpecifier>,
+    PackageSpecifiers,
+  )>,
 }
 
 impl<'a, 'graph> Builder<'a, 'graph> {
@@ -4685,6 +4691,9 @@ impl<'a, 'graph> Builder<'a, 'graph> {
       true => FillPassMode::AllowRestart,
       false => FillPassMode::NoRestart,
     };
+    let lockfile_state = (fill_pass_mode == FillPassMode::AllowRestart
+      && !(graph.redirects.is_empty() && graph.packages.is_empty()))
+    .then(|| (graph.redirects.clone(), graph.packages.clone()));
     Self {
       in_dynamic_branch: options.is_dynamic,
       skip_dynamic_deps: options.skip_dynamic_deps,
@@ -4718,6 +4727,7 @@ impl<'a, 'graph> Builder<'a, 'graph> {
       fill_pass_mode,
       executor: options.executor,
       resolved_roots: Default::default(),
+      lockfile_state,
     }
   }
 
@@ -5357,6 +5367,10 @@ impl<'a, 'graph> Builder<'a, 'graph> {
   ) -> LocalBoxFuture<'_, ()> {
     // if restarting is allowed, then the graph will have been empty at the start
     *self.graph = ModuleGraph::new(self.graph.graph_kind);
+    if let Some((redirects, packages)) = &self.lockfile_state {
+      self.graph.redirects.clone_from(redirects);
+      self.graph.packages.clone_from(packages);
+    }
     self.state = PendingState::default();
     self.fill_pass_mode = FillPassMode::CacheBusting;
     // the first pass may have been stopped while visiting the dynamic branches
